@@ -93,15 +93,35 @@ type input struct {
 	Behaviours []behaviour `json:"behaviours"`
 	Variants   int         `json:"variants"`
 	Focus      string      `json:"focus"` // "C05" | "C06" | "C19": which predicates produce violations
+	// Upstream: "" / "tail" = the scripted tail stands in the resolver's place (pipe.Tail);
+	// "forwarder" = the whole default chain with the REAL forwarder in front of a scripted upstream on
+	// loopback sockets (relay_test.go), so what an upstream can put on the wire reaches the cache and the
+	// edns writer the way it does in production (dnsclient decode, forwarder relay of the additional section)
+	Upstream string `json:"upstream"`
 }
 
 const cookieSecret = "6c6f6f6b61686172646c6f6f6b6168617264"
 const nsidString = "verif-nsid"
 
+// upstreamLog is what the replay needs from whatever plays the upstream: the scripted tail or the socket upstream
+type upstreamLog interface {
+	NCalls() int
+	Last() *dns.Msg
+	Reset()
+}
+
 type twin struct {
 	name string
 	srv  *server.Server
-	tail *pipe.Tail
+	tail *pipe.Tail  // the scripted tail (nil when the real forwarder plays toward a socket upstream)
+	up   upstreamLog // that socket upstream
+}
+
+func (t *twin) log() upstreamLog {
+	if t.up != nil {
+		return t.up
+	}
+	return t.tail
 }
 
 type twins struct {
@@ -257,6 +277,25 @@ func respond(_ context.Context, _ *middleware.Chain, req *dns.Msg) *dns.Msg {
 			&dns.EDNS0_PADDING{Padding: make([]byte, 7)},
 			&dns.EDNS0_SUBNET{Code: dns.EDNS0SUBNET, Family: 1, SourceNetmask: 24, SourceScope: 0, Address: net.IPv4(198, 51, 100, 0)})
 		resp.Extra = []dns.RR{o}
+	case "up2optf", "up2optl", "up2optb": // contentOf lower-cases
+		// TWO OPT records in the additional section.  The one marked foreign carries what belongs to the upstream's
+		// exchange with us (its cookie, its keepalive, padding, an ECS echo); the other one is bare.
+		resp.Answer = []dns.RR{a(name, 7)}
+		mk := func(foreign bool) dns.RR {
+			o := &dns.OPT{Hdr: dns.RR_Header{Name: ".", Rrtype: dns.TypeOPT}}
+			o.SetUDPSize(1232)
+			if foreign {
+				o.SetUDPSize(4096)
+				o.Option = append(o.Option,
+					&dns.EDNS0_COOKIE{Code: dns.EDNS0COOKIE, Cookie: "0123456789abcdef0123456789abcdef0123456789abcdef"},
+					&dns.EDNS0_TCP_KEEPALIVE{Code: dns.EDNS0TCPKEEPALIVE, Timeout: 100},
+					&dns.EDNS0_PADDING{Padding: make([]byte, 7)},
+					&dns.EDNS0_SUBNET{Code: dns.EDNS0SUBNET, Family: 1, SourceNetmask: 24, SourceScope: 0, Address: net.IPv4(198, 51, 100, 0)})
+			}
+			return o
+		}
+		kind := contentOf(name)
+		resp.Extra = []dns.RR{mk(kind != "up2optl"), mk(kind != "up2optf")}
 	case "panic":
 		panic("verif serve: scripted panic behind the cache")
 	case "cnamesplit":
@@ -275,12 +314,18 @@ func respond(_ context.Context, _ *middleware.Chain, req *dns.Msg) *dns.Msg {
 	return resp
 }
 
-func newTwins(c absCfg) (*twins, func()) {
+func newTwins(c absCfg, upstream string) (*twins, func()) {
 	tw := &twins{cfg: c}
 	var rel []func()
 	mk := func(name string) *twin {
-		t := &twin{name: name, tail: &pipe.Tail{Respond: respond}}
-		s, release := pipe.NewServer(realConfig(c), t.tail, "failover")
+		if upstream == "forwarder" {
+			t, stop := newForwarderTwin(name, c)
+			rel = append(rel, stop)
+			return t
+		}
+		tail := &pipe.Tail{Respond: respond}
+		t := &twin{name: name, tail: tail}
+		s, release := pipe.NewServer(realConfig(c), tail, "failover")
 		t.srv = s
 		// the registry is process-global; the Server keeps its own pipeline,
 		// so releasing right away lets the next twin be built
@@ -488,7 +533,7 @@ func remote(p absPkt, ip net.IP, port int) net.Addr {
 }
 
 func (t *twin) serve(mode string, p absPkt, raw []byte, ip net.IP) obs {
-	before := t.tail.NCalls()
+	before := t.log().NCalls()
 	var o obs
 	switch mode {
 	case "wire":
@@ -516,7 +561,7 @@ func (t *twin) serve(mode string, p absPkt, raw []byte, ip net.IP) obs {
 		t.srv.ServeMsg(context.Background(), sink, m)
 		o.replies = sink.Writes
 	}
-	o.tail = t.tail.NCalls() - before
+	o.tail = t.log().NCalls() - before
 	return o
 }
 
@@ -664,7 +709,25 @@ func contract(p absPkt, q built, reply []byte) (string, string) {
 	if m.AuthenticatedData && (p.CD || !(do || p.AD)) {
 		return "ad", fmt.Sprintf("AD set toward a client with CD=%v DO=%v AD=%v", p.CD, do, p.AD)
 	}
-	if ropt != nil {
+	// every OPT record of the reply, not only the one IsEdns0() selects (the last): a client reads them all.  The
+	// server's own options live in ONE record, so whatever another OPT record carries came from somewhere else
+	// (an upstream's exchange with us, or the client's own request)
+	opts := allOPT(m)
+	for i := 0; i+1 < len(opts); i++ {
+		var names []string
+		for _, o := range opts[i].Option {
+			names = append(names, fmt.Sprintf("%d:%s", o.Option(), o.String()))
+		}
+		for _, o := range opts[i].Option {
+			if v, ok := o.(*dns.EDNS0_SUBNET); ok {
+				return "ecs-reflected", fmt.Sprintf("reply with %d OPT records: record %d carries a client-subnet option %s beside %v", len(opts), i+1, v.String(), names)
+			}
+		}
+		if len(names) > 0 {
+			return "foreign-option", fmt.Sprintf("reply with %d OPT records: record %d carries options that are not this server's: %v", len(opts), i+1, names)
+		}
+	}
+	for _, ropt := range opts[max(len(opts)-1, 0):] {
 		for _, o := range ropt.Option {
 			switch v := o.(type) {
 			case *dns.EDNS0_SUBNET:
@@ -716,17 +779,29 @@ func contract(p absPkt, q built, reply []byte) (string, string) {
 	return "", ""
 }
 
+func allOPT(m *dns.Msg) []*dns.OPT {
+	var out []*dns.OPT
+	for _, rr := range m.Extra {
+		if o, ok := rr.(*dns.OPT); ok {
+			out = append(out, o)
+		}
+	}
+	return out
+}
+
 // ---- C19 upstream side ----------------------------------------------------------
 
 func upstreamECS(p absPkt, c absCfg, q built, up *dns.Msg) (string, string) {
 	if up == nil {
 		return "", ""
 	}
-	o := up.IsEdns0()
-	if o == nil {
-		return "", ""
+	// every OPT record of the upstream query: a request that came in with two of them must not carry the second
+	// one's options out either
+	var all []dns.EDNS0
+	for _, o := range allOPT(up) {
+		all = append(all, o.Option...)
 	}
-	for _, e := range o.Option {
+	for _, e := range all {
 		switch v := e.(type) {
 		case *dns.EDNS0_SUBNET:
 			if c.ECS != "on" {
@@ -800,18 +875,23 @@ func TestServeReplay(t *testing.T) {
 			res.Count("other_property_"+prop+"_"+clause, 1)
 			return
 		}
-		rep := map[string]any{"driver": "serve", "cfg": b.Cfg, "steps": b.Steps[:si+1], "query_hex": hex.EncodeToString(q.raw)}
+		rep := map[string]any{"driver": "serve", "cfg": b.Cfg, "steps": b.Steps[:si+1], "query_hex": hex.EncodeToString(q.raw), "upstream": in.Upstream}
 		for k, v := range extra {
 			rep[k] = v
 		}
-		res.Violate(prop+"/"+clause+"/"+caseKey(b, si), what, rep)
+		key := prop + "/" + clause + "/" + caseKey(b, si)
+		if in.Upstream != "" && in.Upstream != "tail" {
+			key = prop + "/" + clause + "/via-" + in.Upstream + "/" + caseKey(b, si)
+			what = "[through the real " + in.Upstream + "] " + what
+		}
+		res.Violate(key, what, rep)
 	}
 	for bi, b := range in.Behaviours {
 		tw := byCfg[b.Cfg]
 		if tw == nil {
 			var rel func()
-			tw, rel = newTwins(b.Cfg)
-			_ = rel
+			tw, rel = newTwins(b.Cfg, in.Upstream)
+			defer rel()
 			byCfg[b.Cfg] = tw
 		}
 		for v := 0; v < in.Variants; v++ {
@@ -867,6 +947,12 @@ func TestServeReplay(t *testing.T) {
 						report("C06", "two-replies", fmt.Sprintf("%s entry wrote %d replies to one query", o.n, len(o.o.replies)), b, si, q, nil)
 					}
 					for _, rep := range o.o.replies {
+						// RFC 6891 6.1.1 (one OPT per message) is not a clause of the C06 statement in as many words: a
+						// reply with two harmless OPT records is an observation (and a drift from the model's writer)
+						if rm := new(dns.Msg); len(rep) > 12 && rm.Unpack(rep) == nil && len(allOPT(rm)) > 1 {
+							res.Count("observation_reply_with_several_opt_records", 1)
+							res.DriftNote("reply with %d OPT records (%s entry, pkt opt=%s, content %s)", len(allOPT(rm)), o.n, st.Pkt.Opt, b.Steps[0].Content)
+						}
 						if clause, what := contract(st.Pkt, q, rep); clause != "" {
 							prop := "C06"
 							report(prop, clause, fmt.Sprintf("[%s entry, cfg %+v, pkt %+v] %s", o.n, b.Cfg, st.Pkt, what), b, si, q,
@@ -885,10 +971,10 @@ func TestServeReplay(t *testing.T) {
 				}
 				// ---- C19 upstream side
 				for _, tt := range []*twin{tw.w, tw.m, tw.i} {
-					if clause, what := upstreamECS(st.Pkt, b.Cfg, q, tt.tail.Last()); clause != "" && tt.tail.NCalls() > 0 {
+					if clause, what := upstreamECS(st.Pkt, b.Cfg, q, tt.log().Last()); clause != "" && tt.log().NCalls() > 0 {
 						report("C19", clause, fmt.Sprintf("[%s entry, cfg %+v, pkt %+v] %s", tt.name, b.Cfg, st.Pkt, what), b, si, q, nil)
 					}
-					tt.tail.Reset()
+					tt.log().Reset()
 				}
 				// ---- C05: the three entries agree
 				cmp := func(an string, a obs, bn string, bb obs) {
@@ -946,7 +1032,7 @@ func TestServeReplay(t *testing.T) {
 			for k, tt := range []*twin{tw.w, tw.m, tw.i} {
 				raw, _ := fq.Pack()
 				fu[k] = tt.serve("msg", absPkt{Proto: "tcp", QD: 1}, raw, net.IPv4(198, 18, 0, 9))
-				tt.tail.Reset()
+				tt.log().Reset()
 			}
 			for k := 0; k < 3; k += 2 {
 				if fu[k].tail != fu[1].tail || len(fu[k].replies) != len(fu[1].replies) {
